@@ -160,10 +160,19 @@ Proof.
   apply rwp_push_tok; [exact HW|reflexivity|]. intros. fin.
 Qed.
 
+Lemma rwp_check_flow_closer seq (Q : unit -> st1 -> unit -> st2 -> Prop) s1 s2 :
+  SR s1 s2 -> Q tt s1 tt s2 -> rwp (check_flow_closer seq) (check_flow_closer seq) Q s1 s2.
+Proof.
+  intros HS HQ. unfold check_flow_closer. apply rwp_bind. apply rwp_get. cbv beta. sr_sync HS.
+  destruct (sc_ifms s1) as [|st r]; [apply rwp_ret; exact HQ|]. cbv zeta.
+  destruct (Bool.eqb _ _); [apply rwp_ret; exact HQ|]. apply rwp_fail. first [reflexivity | exact (SR_mark _ _ HS)].
+Qed.
+
 Lemma rwp_fetch_flow_collection_end F seq s1 s2 : SR s1 s2 -> 1 <= bl2 s2 ->
   rwp (fetch_flow_collection_end sops F seq) (fetch_flow_collection_end bops F seq) srpost s1 s2.
 Proof.
   intros HS HB. unfold fetch_flow_collection_end.
+  apply rwp_bind. apply rwp_check_flow_closer; [exact HS|]. cbv beta.
   sk rwp_remove_simple_key. sk rwp_decrease_flow_level. sk rwp_disallow_simple_key.
   match goal with |- rwp _ _ _ ?a ?b => eapply (rwp_bind_rpost (bl2 b)) end.
   { destruct seq.
